@@ -228,10 +228,6 @@ def generate():
         for rn, ln in (('MAX_FDS_IN_CMSG', 'maxFdsInCmsg'), ('RESERVED_SIZE', 'reservedSize')):
             out.append(f"def {ln} : Nat := {const(unix, rn)}")
             env[rn] = ln
-        m = re.search(r'Events::with_capacity\((\d+)\)', unix)
-        if not m:
-            fail("Events::with_capacity(N) not found")
-        out.append(f"def eventsCap : Nat := {m.group(1)}")
         out.append("")
         # EU2 / EU4 leaf functions
         fnames = {'fragment_size': 'fragmentSize', 'first_fragment_size': 'firstFragmentSize',
@@ -405,6 +401,37 @@ def generate():
         out.append(f"def recvTruncatedIsClosed : Bool := {'true' if m else 'false'}")
         out.append("")
     run_unit('Gen', unit_core)
+    def unit_set(out):
+        # receiver set (C06 / C07 / C19): ids, registration, the wait, the per-member drain loop
+        mo = re.search(r'impl OsIpcReceiverSet \{', unix)
+        if not mo:
+            fail("impl OsIpcReceiverSet not found")
+        rs = strip_comments(unix[mo.end():find_block(unix, mo.end()) - 1])
+        m = re.search(r'Events::with_capacity\((\d+)\)', rs)
+        if not m:
+            fail("Events::with_capacity(N) not found")
+        out.append(f"def eventsCap : Nat := {m.group(1)}")
+        flat = re.sub(r'\s+', '', rs)
+        ids = ('incrementor:0..,' in flat and 'letlast_index=self.incrementor.next().unwrap();' in flat
+               and 'PollEntry{id:last_index,fd}' in flat and 'Ok(last_index)' in flat)
+        out.append(f"def shape_idsFromCounter : Bool := {'true' if ids else 'false'}  -- ids are never re-used")
+        i_reg = flat.find('.register(&mutSourceFd(&fd),fd_token,Interest::READABLE)?;')
+        i_ins = flat.find('self.pollfds.insert(fd_token,poll_entry);')
+        out.append(f"def shape_registerReadable : Bool := {'true' if 0 <= i_reg < i_ins else 'false'}")
+        wait = ('loop{matchself.poll.poll(&mutself.events,None){Ok(())if!self.events.is_empty()=>break,Ok(())=>{},'
+                'Err(referror)=>{iferror.kind()!=io::ErrorKind::Interrupted{returnErr(UnixError::last());}},}'
+                'if!self.events.is_empty(){break;}}')
+        out.append(f"def shape_waitRetriesOnEintr : Bool := {'true' if wait in flat else 'false'}  -- blocks without time-out; EINTR and empty wake-ups retry")
+        drain = ('loop{matchrecv(poll_entry.fd,BlockingMode::Nonblocking){'
+                 'Ok((data,channels,shared_memory_regions))=>{selection_results.push(OsIpcSelectionResult::DataReceived(poll_entry.id,data,channels,shared_memory_regions,));},'
+                 'Err(err)iferr.channel_is_closed()=>{self.pollfds.remove(&event_token).unwrap();self.poll.registry().deregister(&mutSourceFd(&poll_entry.fd)).unwrap();'
+                 'unsafe{libc::close(poll_entry.fd);}selection_results.push(OsIpcSelectionResult::ChannelClosed(poll_entry.id));break;},'
+                 'Err(UnixError::Errno(code))ifcode==EWOULDBLOCK=>{break;},'
+                 'Err(err)=>returnErr(err),}}')
+        out.append(f"def shape_drainUntilWouldBlock : Bool := {'true' if drain in flat else 'false'}  -- every ready member is read until EWOULDBLOCK or closure; closure deregisters and closes")
+        per_event = 'foreventinself.events.iter(){assert!(event.is_readable());letevent_token=event.token();letpoll_entry=self.pollfds.get(&event_token).expect("Gotevent' in flat
+        out.append(f"def shape_everyEventServed : Bool := {'true' if per_event and 'Ok(selection_results)' in flat else 'false'}")
+    run_unit('GenSet', unit_set)
     def unit_timed(out):
         # receive modes (C10): the flag is set before and cleared after the first recvmsg
         _, _, crecv = find_fn(unix, 'recv', 0) if False else (None, None, None)
@@ -485,6 +512,10 @@ def generate():
         i_lin = osrv.find('make_socket_lingering(client_fd)?')
         i_rcv = osrv.find('receiver.recv()?')
         out.append(f"def shape_acceptLingerThenRecv : Bool := {'true' if 0 <= i_acc < i_lin < i_rcv else 'false'}")
+        sc = bool(re.search(r'libc::socket\(libc::AF_UNIX,\s*SOCK_SEQPACKET\s*\|\s*SOCK_FLAGS,\s*0\)', osrv)) and \
+            bool(re.search(r'#\[cfg\(target_os = "linux"\)\]\s*const SOCK_FLAGS: c_int = libc::SOCK_CLOEXEC;', unix)) and \
+            'libc::accept4(self.fd, sockaddr, sockaddr_len, SOCK_FLAGS)' in osrv
+        out.append(f"def shape_rendezvousCloexec : Bool := {'true' if sc else 'false'}  -- listening socket and accepted connection are close-on-exec")
         ac = bool(re.search(r'pub fn accept\(\s*self,', unix))
         out.append(f"def shape_acceptConsumesServer : Bool := {'true' if ac else 'false'}")
 
